@@ -63,14 +63,17 @@ class BitStore:
         x = super().__new__(cls)
         x._bitarray = bitarray.bitarray(buffer=buffer)
         x.immutable = True
-        x.modified_length = length
-        # Here 'modified' means it shouldn't be changed further, so setting, deleting etc. are disallowed.
-        if x.modified_length is not None:
-            if x.modified_length < 0:
+        x.modified_length = None
+        if length is not None:
+            if length < 0:
                 raise CreationError("Can't create bitstring with a negative length.")
-            if x.modified_length > len(x._bitarray):
+            if length > len(x._bitarray):
                 raise CreationError(
-                    f"Can't create bitstring with a length of {x.modified_length} from {len(x._bitarray)} bits of data.")
+                    f"Can't create bitstring with a length of {length} from {len(x._bitarray)} bits of data.")
+            if length < len(x._bitarray):
+                # Only the start of the buffer is wanted. Most operations work on the whole of the underlying
+                # bitarray, so to behave like any other bitstring of these bits it is read into memory.
+                x._bitarray = x._bitarray[:length]
         return x
 
     def setall(self, value: int, /) -> None:
